@@ -7,9 +7,10 @@ Every theorem is for ALL histories (lists of lock / try_lock / unlock events by 
 program can produce on a mutex; mutexes do not interact (World.step touches `mutexes m` only), so "any number of
 mutexes" is the same statement per mutex.
 Excluded by the run (`illFormed`): events of an actor blocked in lock; re-lock of a NON-recursive mutex by its
-owner (undefined in POSIX; what the code does then — return at once because wait_for tests the owner, leaving a stale
-acquisition that makes the next unlock hand the mutex back to the same actor — is modelled and checked by the
-correspondence, corpus case `nonrec-self`).
+owner (undefined in POSIX; what the code does then — the acquisition is queued, not granted, and wait_for, which tests
+`granted_` since the repair of `mutex-relock-by-owner-returns`, blocks the owner on its own mutex for ever — is
+`relock_blocks` below, modelled and checked by the correspondence, corpus case `nonrec-self`; the old behaviour
+— return at once, stale acquisition — is kept as the regression statement `relock_pre_fix_returns`).
 Split path of the model checker (MUTEX_ASYNC_LOCK + MUTEX_WAIT as separate events, any interleaving): history-level
 theorems `split_*` at the end of the file (exclusion, ownership, recursion depth, FIFO hand-off, MUTEX_WAIT enabled iff
 granted) over the run of C04/Split.lean, next to the step-level `lock_is_split`, `lockAsync_keeps_order`,
@@ -113,7 +114,8 @@ theorem trylock_success_owns (m : Mutex) (a : Aid) (h : (m.tryLock a).2 = true) 
   · split <;> simp_all
 
 /-- split path = one-simcall path: `Mutex::lock` outside MC is literally lock_async followed by wait_for -/
-theorem lock_is_split (m : Mutex) (a : Aid) (r : Res) : m.lock a r = (m.lockAsync a).1.waitFor a r := rfl
+theorem lock_is_split (m : Mutex) (a : Aid) (r : Res) :
+    m.lock a r = (m.lockAsync a).1.waitFor a r (m.lockAsync a).2 := rfl
 
 theorem bumpFirst_issuers (a : Aid) (q : List MAcq) : (bumpFirst a q).map (·.issuer) = q.map (·.issuer) := by
   induction q with
@@ -137,9 +139,30 @@ theorem lockAsync_keeps_order (m : Mutex) (a : Aid) :
     · exact .inl rfl
     · exact .inr (by simp)
 
-/-- MUTEX_WAIT completes at once iff the caller is the owner (the test of MutexAcquisitionImpl::wait_for) -/
-theorem waitFor_completes_iff (m : Mutex) (a : Aid) (r : Res) : (m.waitFor a r).2.isSome = true ↔ m.owner = some a := by
+/-- MUTEX_WAIT completes at once iff the acquisition is granted (the test of MutexAcquisitionImpl::wait_for since the
+repair of `mutex-relock-by-owner-returns`; it is also the enabledness test of the checker) -/
+theorem waitFor_completes_iff (m : Mutex) (a : Aid) (r : Res) (granted : Bool) :
+    (m.waitFor a r granted).2.isSome = true ↔ granted = true := by
   unfold Mutex.waitFor; split <;> simp_all
+
+/-- the re-lock of a NON-recursive mutex by its owner blocks (one-simcall path): the acquisition is queued and registered,
+nothing is answered, the owner is unchanged — the program is deadlocked on its own mutex, as under the checker -/
+theorem relock_blocks (m : Mutex) (a : Aid) (r : Res) (hr : m.recursive = false) (ho : m.owner = some a) :
+    (m.lock a r).2 = none ∧ (m.lock a r).1.owner = some a ∧
+    (m.lock a r).1.queue = markLast a r (m.queue ++ [{ issuer := a }]) := by
+  simp [Mutex.lock, Mutex.lockAsync, Mutex.waitFor, hr, ho]
+
+/-- regression statement about the code BEFORE that repair (`Mutex.lockPre`: owner test in wait_for): the same re-lock
+returned at once and left a stale acquisition in the queue -/
+theorem relock_pre_fix_returns (m : Mutex) (a : Aid) (r : Res) (hr : m.recursive = false) (ho : m.owner = some a) :
+    (m.lockPre a r).2 = some r ∧ (m.lockPre a r).1.queue = m.queue ++ [{ issuer := a }] := by
+  simp [Mutex.lockPre, Mutex.lockAsync, Mutex.waitForPre, hr, ho]
+
+/-- outside that re-lock the repaired and the old one-simcall `lock` are the same function -/
+theorem lock_eq_lockPre (m : Mutex) (a : Aid) (r : Res) (h : ¬ (m.recursive = false ∧ m.owner = some a)) :
+    m.lock a r = m.lockPre a r := by
+  unfold Mutex.lock Mutex.lockPre Mutex.waitFor Mutex.waitForPre Mutex.lockAsync
+  cases hr : m.recursive <;> cases ho : m.owner <;> simp_all <;> (repeat' split) <;> simp_all
 
 /-! ### non-vacuity: concrete histories that satisfy the hypotheses -/
 
@@ -179,8 +202,9 @@ answers -/
 theorem split_step_is_world_step (w : World) (a : Aid) (m : Nat) :
     w.step (.lockAsync a m) = .ok ({ w with mutexes := upd w.mutexes m ((w.mutexes m).lockAsync a).1 },
                                    [(a, .flag ((w.mutexes m).lockAsync a).2)]) ∧
-    w.step (.mutexWait a m) = .ok ({ w with mutexes := upd w.mutexes m ((w.mutexes m).waitFor a .unit).1 },
-                                   optOut a ((w.mutexes m).waitFor a .unit).2) ∧
+    w.step (.mutexWait a m) =
+      .ok ({ w with mutexes := upd w.mutexes m ((w.mutexes m).waitFor a .unit ((w.mutexes m).isGranted a)).1 },
+           optOut a ((w.mutexes m).waitFor a .unit ((w.mutexes m).isGranted a)).2) ∧
     w.step (.tryLock a m) = .ok ({ w with mutexes := upd w.mutexes m ((w.mutexes m).tryLock a).1 },
                                  [(a, .flag ((w.mutexes m).tryLock a).2)]) ∧
     w.step (.unlock a m) =
@@ -223,21 +247,26 @@ theorem split_mutex_fifo (r : Bool) (evs : List SEv) (s : SSt) (h : srun (SSt.in
   ⟨(sinv_run evs (sinv_init r) h).fifo, (sinv_run evs (sinv_init r) h).nodup⟩
 
 /-- split path: MUTEX_WAIT of a pending acquisition completes at once iff the acquisition is granted (= it is not in the
-queue): on every reachable state the owner test of `MutexAcquisitionImpl::wait_for` coincides with `granted_`, the
-enabledness test of the checker (the domain excludes the re-lock of a non-recursive mutex by its owner) -/
+queue), and on every reachable state this is the case iff the issuer is the owner: `granted_`, the test of
+`MutexAcquisitionImpl::wait_for` and the enabledness test of the checker, coincides with the owner test the code used
+before the repair of `mutex-relock-by-owner-returns` (the domain excludes the re-lock of a non-recursive mutex by its
+owner, the only case where the two tests differ: `relock_blocks` / `relock_pre_fix_returns`) -/
 theorem split_wait_enabled_iff_granted (r : Bool) (evs : List SEv) (s : SSt) (h : srun (SSt.init r) evs = .ok s)
     (a : Aid) (hp : s.pend a = true) :
-    (s.m.waitFor a .unit).2.isSome = true ↔ a ∉ s.m.queue.map (·.issuer) := by
+    ((s.m.waitFor a .unit (s.m.isGranted a)).2.isSome = true ↔ a ∉ s.m.queue.map (·.issuer)) ∧
+    (a ∉ s.m.queue.map (·.issuer) ↔ s.m.owner = some a) := by
   have hi := sinv_run evs (sinv_init r) h
-  rw [waitFor_completes_iff]
-  constructor
-  · intro ho hm
-    obtain ⟨q, hq, e⟩ := List.mem_map.mp hm
-    exact (hi.q1 q hq).2.1 (by rw [e]; exact ho)
-  · intro hn
-    rcases hi.pq a hp with h1 | h1
-    · exact h1
-    · exact absurd h1 hn
+  refine ⟨?_, ?_⟩
+  · rw [waitFor_completes_iff]
+    simp [Mutex.isGranted]
+  · constructor
+    · intro hn
+      rcases hi.pq a hp with h1 | h1
+      · exact h1
+      · exact absurd h1 hn
+    · intro ho hm
+      obtain ⟨q, hq, e⟩ := List.mem_map.mp hm
+      exact (hi.q1 q hq).2.1 (by rw [e]; exact ho)
 
 /-- split path, no lost hand-off: a queued acquisition is registered iff its issuer already executed its MUTEX_WAIT
 (then the hand-off answers it, `handoff_to_head`); otherwise the hand-off only makes it the owner and the MUTEX_WAIT it
